@@ -3,7 +3,7 @@
 Fails loudly (exit 1) when a table's shape is no longer what the anchored patterns expect."""
 import os, re, sys
 ROOT = os.path.dirname(os.path.dirname(os.path.abspath(__file__)))
-SRC = "/repo/packages/rooc/src"
+SRC = os.path.join(os.environ.get("VERIF_REPO", "/repo"), "packages/rooc/src")
 GEN = os.path.join(ROOT, "lean", "Rooc", "Gen")
 
 def write_if_changed(path, text):
@@ -11,6 +11,191 @@ def write_if_changed(path, text):
         return
     os.makedirs(os.path.dirname(path), exist_ok=True)
     open(path, "w").write(text)
+
+
+# ---------------------------------------------------------------------------------------------
+# C09 / C11: Pratt table (exp_parser.rs), pest's PREC_STEP, keyword / alias lists (grammar.pest)
+# ---------------------------------------------------------------------------------------------
+def lstr(s):
+    return '"' + s.replace("\\", "\\\\").replace('"', '\\"') + '"'
+
+def pest_rule(grammar, name):
+    """body of `name = <modifier>{ ... }` with balanced braces, `//` comments dropped, whitespace-normalised."""
+    m = re.search(r"^" + re.escape(name) + r"\s*=\s*([_@$!]?)\{", grammar, re.M)
+    if not m:
+        return None, None
+    i, depth, body = m.end(), 1, ""
+    while i < len(grammar):
+        c = grammar[i]
+        if c == '"':
+            j = i + 1
+            while grammar[j] != '"':
+                j += 2 if grammar[j] == "\\" else 1
+            body += grammar[i:j + 1]
+            i = j + 1
+            continue
+        if c == "/" and grammar[i + 1] == "/":
+            while grammar[i] != "\n":
+                i += 1
+            continue
+        if c == "{":
+            depth += 1
+        elif c == "}":
+            depth -= 1
+            if depth == 0:
+                break
+        body += c
+        i += 1
+    return m.group(1), " ".join(body.split())
+
+def top_alternatives(body):
+    """split a pest rule body at its top-level `|` (outside parentheses and string literals)."""
+    out, cur, depth, i = [], "", 0, 0
+    while i < len(body):
+        c = body[i]
+        if c == '"':
+            j = i + 1
+            while body[j] != '"':
+                j += 2 if body[j] == "\\" else 1
+            cur += body[i:j + 1]
+            i = j + 1
+            continue
+        if c == "(":
+            depth += 1
+        elif c == ")":
+            depth -= 1
+        if c == "|" and depth == 0:
+            out.append(cur.strip())
+            cur = ""
+        else:
+            cur += c
+        i += 1
+    out.append(cur.strip())
+    return out
+
+def extract_syntax():
+    errs = []
+    ep = open(os.path.join(SRC, "parser/rules_parser/exp_parser.rs")).read()
+    # --- the `.op(...)` chain
+    m = re.search(r"PrattParser::new\(\)(.*?)\n\s*\};", ep, re.S)
+    chain = []
+    if not m:
+        errs.append("PRATT_PARSER: PrattParser::new() ... }; block")
+    else:
+        body = "\n".join(l for l in m.group(1).split("\n") if not l.strip().startswith("//"))
+        chunks = body.split(".op(")
+        if chunks[0].strip():
+            errs.append("PRATT_PARSER: unexpected text before the first .op(: " + chunks[0].strip()[:60])
+        for ch in chunks[1:]:
+            ops = re.findall(r"Op::(infix|prefix|postfix)\(\s*Rule::(\w+)\s*(?:,\s*(?:Assoc::)?(Left|Right)\s*)?\)", ch)
+            rest = re.sub(r"Op::(infix|prefix|postfix)\(\s*Rule::(\w+)\s*(?:,\s*(?:Assoc::)?(Left|Right)\s*)?\)", "", ch)
+            if rest.replace("|", "").strip() != ")" or not ops:
+                errs.append("PRATT_PARSER: unrecognised .op( argument: " + " ".join(ch.split())[:80])
+                continue
+            lvl = []
+            for kind, rule, assoc in ops:
+                if kind == "infix" and assoc not in ("Left", "Right"):
+                    errs.append("PRATT_PARSER: infix without Left/Right: " + rule)
+                if kind == "postfix":
+                    errs.append("PRATT_PARSER: postfix operator (not modelled): " + rule)
+                aff = {"prefix": "prefix", "postfix": "postfix", "infix": "infixR" if assoc == "Right" else "infixL"}[kind]
+                lvl.append((rule, aff))
+            chain.append(lvl)
+        if not chain:
+            errs.append("PRATT_PARSER: empty .op( chain")
+    # --- map_infix / map_prefix arms
+    inf = re.findall(r"Rule::(\w+)\s*=>\s*BinOp::(\w+)", ep)
+    pre = re.findall(r"Rule::(\w+)\s*=>\s*UnOp::(\w+)", ep)
+    if len(inf) != 9 or sorted(b for _, b in inf) != sorted(["Add", "Sub", "Mul", "Div", "And", "Or", "Xor", "Implies", "Iff"]):
+        errs.append("parse_exp map_infix arms: " + str(inf))
+    if sorted(b for _, b in pre) != ["Neg", "Not"]:
+        errs.append("parse_exp map_prefix arms: " + str(pre))
+    # implicit multiplication fold (left fold with BinOp::Mul)
+    imul = re.search(r"Rule::implicit_mul\s*=>\s*\{(.*?)\n        \}", ep, re.S)
+    if not imul or imul.group(1).count("BinOp::Mul") != 2 or "res.to_boxed()" not in imul.group(1):
+        errs.append("parse_exp_leaf Rule::implicit_mul left fold")
+    # --- pest PREC_STEP (version pinned by /repo's Cargo.lock)
+    step = None
+    try:
+        lock = open("/repo/Cargo.lock").read() if os.path.exists("/repo/Cargo.lock") else open("/repo/packages/rooc/Cargo.lock").read()
+        ver = re.search(r'name = "pest"\nversion = "([^"]+)"', lock).group(1)
+        import glob
+        cands = glob.glob(os.path.expanduser(f"~/.cargo/registry/src/*/pest-{ver}/src/pratt_parser.rs"))
+        pp = open(cands[0]).read()
+        step = int(re.search(r"const PREC_STEP: Prec = (\d+);", pp).group(1))
+        # the three places where binding powers are used
+        for pat in [r"let mut lhs = self\.nud\(pairs\);\s*while rbp < self\.lbp\(pairs\) \{\s*lhs = self\.led\(pairs, lhs\);",
+                    r"Some\(\(Affix::Prefix, prec\)\) => \{\s*let rhs = self\.expr\(pairs, prec - 1\);",
+                    r"Assoc::Left => self\.expr\(pairs, prec\),\s*Assoc::Right => self\.expr\(pairs, prec - 1\),",
+                    r"prec: PREC_STEP,", r"self\.prec \+= PREC_STEP;"]:
+            if not re.search(pat, pp):
+                errs.append("pest pratt_parser.rs: loop shape changed (" + pat[:40] + ")")
+    except Exception as e:  # noqa
+        errs.append("pest pratt_parser.rs / PREC_STEP: " + repr(e)[:100])
+    # --- grammar.pest
+    g = open(os.path.join(SRC, "parser/grammar.pest")).read()
+    shapes = {}
+    for name in ["exp", "exp_leaf", "implicit_mul", "parenthesis", "function", "function_pars", "binary_op", "unary_op",
+                 "variable", "simple_variable", "number", "integer", "float", "boolean", "function_name", "WHITESPACE",
+                 "COMMENT", "keyword", "mul", "add", "sub", "div", "neg", "and_op", "or_op", "xor_op", "implies_op",
+                 "iff_op", "not_op", "comma", "tagged_exp"]:
+        mod, body = pest_rule(g, name)
+        if body is None:
+            errs.append("grammar.pest rule " + name)
+        else:
+            shapes[name] = (mod, body)
+    kws, spell = [], {}
+    if "keyword" in shapes:
+        m = re.fullmatch(r'\((.*?)\) ~ !\(LETTER \| NUMBER \| "_"\)', shapes["keyword"][1])
+        if not m:
+            errs.append("grammar.pest keyword shape")
+        else:
+            kws = re.findall(r'"([^"]+)"', m.group(1))
+    for r in ["mul", "add", "sub", "div", "neg", "and_op", "or_op", "xor_op", "implies_op", "iff_op", "not_op"]:
+        if r not in shapes:
+            continue
+        alts = []
+        for alt in top_alternatives(shapes[r][1]):
+            mk = re.fullmatch(r'\(?"([A-Za-z]+)" ~ !\(LETTER \| NUMBER \| "_"\)\)?', alt)
+            ms = re.fullmatch(r'"([^"A-Za-z]+)"', alt)
+            if mk:
+                alts.append(("word", mk.group(1)))
+            elif ms:
+                alts.append(("sym", ms.group(1)))
+            else:
+                errs.append(f"grammar.pest {r}: unrecognised alternative {alt!r}")
+        spell[r] = alts
+    if errs:
+        print("extractor could not re-read: " + "; ".join(errs))
+        return 1
+    t = "/- GENERATED by tools/extract.py from parser/rules_parser/exp_parser.rs and pest's pratt_parser.rs — do not edit. -/\n"
+    t += "namespace Rooc.Gen\n"
+    t += f"/-- pest `PREC_STEP` -/\ndef precStep : Nat := {step}\n"
+    t += "/-- the `.op(…)` chain of PRATT_PARSER in source order: one list per precedence level of (pest rule, affix) -/\n"
+    t += "def prattChain : List (List (String × String)) :=\n  [" + ",\n   ".join(
+        "[" + ", ".join(f"({lstr(r)}, {lstr(a)})" for r, a in lvl) + "]" for lvl in chain) + "]\n"
+    t += "/-- arms of `map_infix`: pest rule ↦ BinOp variant -/\n"
+    t += "def infixArms : List (String × String) :=\n  [" + ", ".join(f"({lstr(r)}, {lstr(b)})" for r, b in inf) + "]\n"
+    t += "/-- arms of `map_prefix`: pest rule ↦ UnOp variant -/\n"
+    t += "def prefixArms : List (String × String) :=\n  [" + ", ".join(f"({lstr(r)}, {lstr(b)})" for r, b in pre) + "]\n"
+    t += "end Rooc.Gen\n"
+    write_if_changed(os.path.join(GEN, "Pratt.lean"), t)
+    t = "/- GENERATED by tools/extract.py from parser/grammar.pest — do not edit. -/\n"
+    t += "namespace Rooc.Gen\n"
+    t += "/-- alternatives of the `keyword` rule (each followed by the boundary look-ahead `!(LETTER | NUMBER | \"_\")`) -/\n"
+    t += "def keywords : List String := [" + ", ".join(lstr(k) for k in kws) + "]\n"
+    t += "/-- spellings of the operator rules: (rule, kind, text); kind `word` carries the boundary look-ahead -/\n"
+    t += "def opSpellings : List (String × String × String) :=\n  [" + ",\n   ".join(
+        f"({lstr(r)}, {lstr(k)}, {lstr(s)})" for r in spell for k, s in spell[r]) + "]\n"
+    for nm, rule in [("binaryOpAlts", "binary_op"), ("unaryOpAlts", "unary_op"), ("expLeafAlts", "exp_leaf")]:
+        t += f"/-- ordered alternatives of `{rule}` -/\n"
+        t += f"def {nm} : List String := [" + ", ".join(lstr(a) for a in top_alternatives(shapes[rule][1])) + "]\n"
+    t += "/-- rule bodies whose shape the token-level model depends on: (rule, modifier, whitespace-normalised body) -/\n"
+    t += "def ruleShapes : List (String × String × String) :=\n  [" + ",\n   ".join(
+        f"({lstr(n)}, {lstr(shapes[n][0])}, {lstr(shapes[n][1])})" for n in shapes) + "]\n"
+    t += "end Rooc.Gen\n"
+    write_if_changed(os.path.join(GEN, "Grammar.lean"), t)
+    return 0
 
 def main():
     errs = []
@@ -63,6 +248,9 @@ def main():
     t += f"def boundsToleranceText : String := \"{m1.group(1)}\"\n"
     t += "end Rooc.Gen\n"
     write_if_changed(os.path.join(GEN, "Consts.lean"), t)
+    rc = extract_syntax()
+    if rc:
+        return rc
     return 0
 
 if __name__ == "__main__":
